@@ -138,9 +138,15 @@ pub fn build_command(root: &Path, cfg: &Config) -> MosResult<()> {
             .parent()
             .map(|p| p.to_path_buf())
             .unwrap_or_default();
-        for (source_path, contents) in
+        // (in the order of the source paths: which file gets the plain name when two of them want the same one must not
+        // depend on the order in which the listings happen to come)
+        let mut taken = std::collections::HashSet::new();
+        let mut listings: Vec<_> =
             to_listing(&generated_code, cfg.formatting.listing.num_bytes_per_line)?
-        {
+                .into_iter()
+                .collect();
+        listings.sort_by(|a, b| a.0.cmp(&b.0));
+        for (source_path, contents) in listings {
             // The listing of a file in a subdirectory goes into the same subdirectory of the target directory:
             // 'x/util.asm' and 'y/util.asm' (or 'lib/main.asm' and the entry file) would otherwise share one listing
             // file, and which of the two ends up in it would differ from build to build.
@@ -148,7 +154,25 @@ pub fn build_command(root: &Path, cfg: &Config) -> MosResult<()> {
                 Ok(relative) => relative.to_path_buf(),
                 Err(_) => PathBuf::from(source_path.file_name().unwrap()),
             };
-            let listing_path = target_dir.join(relative).with_extension("lst");
+            // Sources that differ in their extension only ('util.asm', 'util.inc'), or that lie outside the directory of the
+            // entry file, can still want the same listing file: the later one keeps its full file name, then gets a number
+            let mut listing_path = target_dir.join(&relative).with_extension("lst");
+            let full_name = relative
+                .file_name()
+                .map(|n| n.to_string_lossy().to_string())
+                .unwrap_or_default();
+            let mut n = 1;
+            while !taken.insert(listing_path.clone()) {
+                listing_path = match n {
+                    1 => target_dir
+                        .join(&relative)
+                        .with_file_name(format!("{}.lst", full_name)),
+                    _ => target_dir
+                        .join(&relative)
+                        .with_file_name(format!("{}.{}.lst", full_name, n)),
+                };
+                n += 1;
+            }
             if let Some(parent) = listing_path.parent() {
                 fs::create_dir_all(parent)?;
             }
